@@ -163,6 +163,34 @@ def enforce_no_pitch_overlap(asc, rng, mode=None):
         p["tuplets"] = [s for s in p["tuplets"] if s["start"] in ids and s["end"] in ids]
 
 
+def tiny_tuplet_pickup(k):
+    """a boundary score: an upbeat whose length is a tuplet fraction of a quarter (1/5, 2/3, 7/6, 7/24 ...), so that the
+    position of the first barline in quarters is not a binary fraction; short notes right after the barline"""
+    d, p = k.choice(((5, 1), (5, 2), (5, 3), (10, 3), (10, 7), (6, 1), (6, 7), (12, 14), (24, 7), (3, 1), (3, 2), (7, 3), (9, 2)))
+    L = 4 * d
+    bounds = [0, p, p + L, p + 2 * L]
+    notes = []
+
+    def add(t, e, m):
+        notes.append({"id": "p1n%d" % (len(notes) + 1), "kind": "note", "t": t, "e": e, "voice": 1, "staff": 1, "sym": None, "m": m, "g": None, "step": "CDEFGAB"[len(notes) % 7], "alter": None, "octave": 4})
+
+    add(0, p, 0)
+    for m in (1, 2):
+        t = bounds[m]
+        add(t, t + 1, m)
+        add(t + 1, t + d, m)
+        for b in range(1, 4):
+            add(t + b * d, t + (b + 1) * d, m)
+    part = {
+        "id": "P1", "name": "P1", "abbr": None, "qdivs": [[0, d]], "nstaves": 1, "end": bounds[-1],
+        "measures": [{"s": bounds[m], "e": bounds[m + 1], "number": m + 1, "name": str(m)} for m in range(3)],
+        "timesigs": [{"t": 0, "beats": 4, "beat_type": 4}], "keysigs": [{"t": 0, "fifths": 0, "mode": "major"}],
+        "clefs": [{"t": 0, "staff": 1, "sign": "G", "line": 2, "oct": 0}],
+        "notes": notes, "slurs": [], "tuplets": [], "dirs": [], "tempos": [], "repeats": [], "endings": [], "nav": [], "fermatas": [],
+    }
+    return {"id": None, "parts": [part], "groups": None}
+
+
 def tiny_many(k):
     """a boundary score: as many parts (or voices of one part) as there are MIDI channels to give them"""
     n = k.choice((9, 10, 12, 15))
@@ -195,6 +223,8 @@ def generate(seed, tier, cfg):
     asc = gen.gen_score(st.workload, profile="midi", size=gen.pick_size(tier, st.knobs))
     if k.random() < 0.04:
         asc = tiny_many(k)
+    elif k.random() < 0.05:
+        asc = tiny_tuplet_pickup(k)
     if k.random() < 0.08 and len(asc["parts"]) > 1:
         # nothing makes part ids unique: parts built by hand often all have the default id
         same = k.choice(("", "P", None))
